@@ -28,55 +28,63 @@ pub fn gen(seed: u64, cases: usize, flavour: &str, path: &str) {
             }
         }
         g.line(&format!("COSTS {nc}{cl}"));
-        let nd = 1 + g.rng.below(14) as i64;
-        g.line(&format!("DATA D 3 {}", SYMS.join(" ")));
+        // one case in twelve leaves the ordinary regime: a long run, a dozen symbols, magnitudes far from 1 (powers of
+        // two), an epoch-millisecond clock
+        let stress = if g.rng.chance(1, 12) { 1 + g.rng.below(4) } else { 0 };
+        g.stats.bump(match stress { 1 => "stress_long_run", 2 => "stress_many_symbols", 3 => "stress_magnitudes", 4 => "stress_epoch_millisecond_dates", _ => "ordinary_regime" });
+        let wide: Vec<String> = (0..12).map(|i| format!("S{i:02}")).collect();
+        let syms: Vec<&str> = if stress == 2 { wide.iter().map(|x| x.as_str()).collect() } else { SYMS.to_vec() };
+        let mag: f64 = if stress == 3 { *g.rng.pick(&[1048576.0, 1.0 / 128.0, 1073741824.0]) } else { 1.0 };
+        let (date0, dstep): (i64, i64) = if stress == 4 { (1_700_000_000_000, 250) } else { (100, 1) };
+        let nd = if stress == 1 { 120 + g.rng.below(200) as i64 } else { 1 + g.rng.below(14) as i64 };
+        g.line(&format!("DATA D {} {}", syms.len(), syms.join(" ")));
         let constant = constant_only || g.rng.chance(1, 3);
         g.stats.bump(if constant { "constant_prices_zero_spread" } else { "moving_prices" });
-        let mut px = [40u64, 80, 120];
+        let mut px = [40u64, 80, 120, 60, 70, 90, 100, 110, 130, 140, 150, 160];
         // the same dataset is loaded date by date, or one symbol at a time (as the repository's own perf test does);
         // in the second case the first symbol is quoted on every date, so that `dates` still comes out increasing
         let bysym = g.rng.chance(1, 4);
         g.stats.bump(if bysym { "dataset_loaded_symbol_by_symbol" } else { "dataset_loaded_date_by_date" });
         let mut entries: Vec<(i64, usize, f64, f64)> = Vec::new();
         for d in 0..nd {
-            for k in 0..SYMS.len() {
+            for k in 0..syms.len() {
                 if d == 0 || (bysym && k == 0) || !g.rng.chance(1, 6) {
                     if !constant {
                         px[k] = (px[k] as i64 + g.rng.below(9) as i64 - 4).max(2) as u64;
                     }
-                    let bid = px[k] as f64 * 0.5;
-                    let ask = if constant { bid } else { bid + g.rng.below(2) as f64 * 0.5 };
-                    entries.push((100 + d, k, bid, ask));
+                    let bid = px[k] as f64 * 0.5 * mag;
+                    let ask = if constant { bid } else { bid + g.rng.below(2) as f64 * 0.5 * mag };
+                    entries.push((date0 + dstep * d, k, bid, ask));
                 }
             }
         }
         if bysym {
-            for k in 0..SYMS.len() {
+            for k in 0..syms.len() {
                 for e in entries.iter().filter(|e| e.1 == k) {
-                    g.line(&format!("Q D {} 1 {} {} {}", e.0, SYMS[k], fb(e.2), fb(e.3)));
+                    g.line(&format!("Q D {} 1 {} {} {}", e.0, syms[k], fb(e.2), fb(e.3)));
                 }
             }
         } else {
             for d in 0..nd {
-                let es: Vec<_> = entries.iter().filter(|e| e.0 == 100 + d).collect();
-                let l: String = es.iter().map(|e| format!(" {} {} {}", SYMS[e.1], fb(e.2), fb(e.3))).collect();
-                g.line(&format!("Q D {} {}{}", 100 + d, es.len(), l));
+                let es: Vec<_> = entries.iter().filter(|e| e.0 == date0 + dstep * d).collect();
+                let l: String = es.iter().map(|e| format!(" {} {} {}", syms[e.1], fb(e.2), fb(e.3))).collect();
+                g.line(&format!("Q D {} {}{}", date0 + dstep * d, es.len(), l));
             }
         }
-        let n = 1 + g.rng.below(3);
+        let n = 1 + g.rng.below(if stress == 2 { 10 } else { 3 });
         let mut wl = String::new();
         let mut used: Vec<&str> = Vec::new();
         for _ in 0..n {
-            let s = if g.rng.chance(1, 8) { "ZZZ" } else { *g.rng.pick(&SYMS) };
+            let s = if g.rng.chance(1, 8) { "ZZZ" } else { *g.rng.pick(&syms) };
             if used.contains(&s) {
                 continue;
             }
             used.push(s);
-            wl += &format!(" {} {}", s, fb(*g.rng.pick(&[0.0, 0.25, 0.125, 0.5])));
+            wl += &format!(" {} {}", s, fb(*g.rng.pick(&[0.0, 0.25, 0.125, 0.5]) * if stress == 2 { 0.25 } else { 1.0 }));
         }
         g.line(&format!("WEIGHTS {}{}", used.len(), wl));
         g.line("BUILD");
-        let c0 = *g.rng.pick(&[0.0, 1000.0, 100000.0, 4096.0]);
+        let c0 = *g.rng.pick(&[0.0, 1000.0, 100000.0, 4096.0]) * mag;
         g.line(&format!("INIT {}", fb(c0)));
         let stepwise = g.rng.chance(2, 3);
         if stepwise {
